@@ -66,6 +66,8 @@ struct Builder {
     /// names of procedures that labels may share (labels and procedures live in separate name
     /// spaces: `jmp p_0` goes to the label, `call p_0` to the procedure)
     alias: Vec<String>,
+    /// procedures named like their predecessor in another case (see proc_name)
+    case_variants: bool,
 }
 
 impl Builder {
@@ -139,7 +141,7 @@ fn build_body(toks: &[Tok], b: &mut Builder, nprocs_callable: usize, top_level: 
             }
             8 => {
                 if nprocs_callable > 0 {
-                    out.push(Item::Ins(Insn::new("call", vec![Opd::Name(format!("p_{}", t.a as usize % nprocs_callable))])));
+                    out.push(Item::Ins(Insn::new("call", vec![Opd::Name(proc_name(b.case_variants, t.a as usize % nprocs_callable))])));
                 }
             }
             9 => out.push(Item::Label(b.fresh())),
@@ -187,11 +189,21 @@ fn build_body(toks: &[Tok], b: &mut Builder, nprocs_callable: usize, top_level: 
     out
 }
 
+/// name of the i-th procedure.  In one program in three (max_depth == 3) every odd-numbered procedure is called like
+/// its predecessor with a capital P: names are case-sensitive, so p_0 and P_0 are two different procedures
+pub fn proc_name(case_variants: bool, i: usize) -> String {
+    if case_variants && i % 2 == 1 {
+        format!("P_{}", i - 1)
+    } else {
+        format!("p_{}", i)
+    }
+}
+
 pub fn build_program(g: &GenCfg) -> Program {
     let mut code: Vec<Item> = Vec::new();
     // one program in four reuses procedure names as label names
-    let alias: Vec<String> = if g.max_depth == 2 && g.trailing_label { (0..g.procs.len()).map(|i| format!("p_{}", i)).collect() } else { vec![] };
-    let mut b = Builder { next_label: 0, prefix: "L".into(), alias };
+    let alias: Vec<String> = if g.max_depth == 2 && g.trailing_label { (0..g.procs.len()).map(|i| proc_name(false, i)).collect() } else { vec![] };
+    let mut b = Builder { next_label: 0, prefix: "L".into(), alias, case_variants: g.max_depth == 3 };
     let mut data: Vec<DataDecl> = Vec::new();
     if g.with_data {
         data.push(DataDecl::Item { label: Some("d_0".into()), word: false, kind: DataKind::Str("data!".into()) });
@@ -215,7 +227,7 @@ pub fn build_program(g: &GenCfg) -> Program {
         if body.is_empty() {
             body.extend(marker(MARKERS[i % MARKERS.len()]));
         }
-        code.push(Item::Proc { name: format!("p_{}", i), body });
+        code.push(Item::Proc { name: proc_name(g.max_depth == 3, i), body });
     }
     if g.start_pos != 2 {
         code.push(Item::Label("start".into()));
